@@ -239,6 +239,18 @@ def run(ctx):
             for key, v in lib.slice_matches(gfe, bi).items():
                 if key.startswith("match:"):
                     disp[v] = tname
+    # ... or by a lookup in a table of (name, table) pairs kept in data
+    for lk in lib.table_lookups(F, gfe):
+        for bi, si, st in gfe.stmts():
+            rv = st.get("rv")
+            if rv and rv["k"] == "agg" and rv["kind"].get("var") == "OneByteEncoding":
+                j = lib.lookup_field(gfe, rv["ops"][0], lk)
+                if j is None:
+                    continue
+                for row in lk["rows"]:
+                    kc, vc_ = row[lk["key_field"]], row[j]
+                    if kc[0] == "bytes":
+                        disp[kc[1]] = by_raw.get(vc_[1].hex(), "?") if vc_[0] == "raw" else "?"
     want = {b"StandardEncoding": "STANDARD_ENCODING", b"MacRomanEncoding": "MAC_ROMAN_ENCODING", b"MacExpertEncoding": "MAC_EXPERT_ENCODING",
             b"WinAnsiEncoding": "WIN_ANSI_ENCODING", b"PDFDocEncoding": "PDF_DOC_ENCODING"}
     ctx.ob(R, "font-encoding-names", disp == want, "get_font_encoding dispatches %s" % {k.decode(): v for k, v in disp.items()}, gfe.where(),
